@@ -67,6 +67,9 @@ func c19RecoveryError(ret string, n int, recovered any) error {
 			return connect.NewError(connect.CodeDataLoss, fmt.Errorf("recovered #%d: %w", n, cause))
 		}
 		return coded
+	case "long":
+		// what a recovery function that includes a stack trace returns
+		return connect.NewError(connect.CodeDataLoss, fmt.Errorf("recovered #%d: %s", n, strings.Repeat("goroutine 7 [running]: main.handler(...) ", 120)))
 	case "coded-meta":
 		coded.Meta().Add("X-Err", "m1")
 		coded.Meta().Add("X-Err", "m2")
@@ -308,6 +311,12 @@ func c19Check(c *ev.Collector, k c19Case) {
 				bad = true
 				viol("client-gets-recovery-error", "wrong-error", "client received %v; want deadline_exceeded", got.Res.Err)
 			}
+		} else if k.Ret == "long" {
+			want := c19RecoveryError("long", 1, nil)
+			if got.Res.Err == nil || !errors.As(got.Res.Err, &ce) || ce.Code() != connect.CodeDataLoss || "data_loss: "+ce.Message() != want.Error() {
+				bad = true
+				viol("client-gets-recovery-error", "wrong-error", "client received %s; want the recovery function's %d-byte message unchanged", clip(fmt.Sprint(got.Res.Err), 120), len(want.Error()))
+			}
 		} else if k.Ret == "coded-wraps-cause" {
 			if got.Res.Err == nil || !errors.As(got.Res.Err, &ce) || ce.Code() != connect.CodeDataLoss || !strings.HasPrefix(ce.Message(), "recovered #1: ") {
 				bad = true
@@ -364,7 +373,7 @@ func c19Cases(thorough bool) []c19Case {
 									out = append(out, c19Case{Proto: p, Kind: kind, Value: v, Point: pt, Before: before, After: after, PanicNil: pn, Ret: "coded-wraps-cause"})
 								}
 								if (v == "string" || v == "nil" || (thorough && v == "error")) && (thorough || before+after <= 1) {
-									for _, ret := range []string{"uncoded", "wrapped-coded", "ctx-deadline", "coded-meta"} {
+									for _, ret := range []string{"uncoded", "wrapped-coded", "ctx-deadline", "coded-meta", "long"} {
 										out = append(out, c19Case{Proto: p, Kind: kind, Value: v, Point: pt, Before: before, After: after, PanicNil: pn, Ret: ret})
 									}
 								}
